@@ -81,6 +81,12 @@ def gen_mt(chk, i):
         if rng.random() < 0.5:
             ops.append("rank %d %d" % (k, 64))
         n = rng.choice([50, 500, 3000]) if not first_wave else rng.choice([5, 50])
+        heavy = (i % 4 == 2 and not churn)
+        if heavy:
+            # every thread fills its 2 MiB buffer with small events and never flushes by hand: the
+            # automatic flushes of several threads fall into the same stretch of the run
+            n = 20
+            ops.append("bulk %d" % rng.choice([175000, 180000, 200000, 360000]))
         for _ in range(n):
             r = rng.random()
             if r < 0.03:
